@@ -5,7 +5,7 @@
 
 namespace hz {
 
-static const uint64_t kBudget = 20000ull * 70000;
+static const uint64_t kBudget = 3000ull * 70000;
 
 // Value equality: bit-equality for integers and floats (all NaNs are one value), code units for strings, order for sequences.
 static bool EqualValues(const DynNode& a, const DynNode& b, std::string& where)
@@ -64,6 +64,7 @@ Outcome RunC01(RunCtx& ctx)
 	const bool avoid = !s.chance(sim::L_CFG, 1, 64);
 	if (archive == A_XML && avoid) g.allowEmptyContainers = false;      // KF-XML-EMPTY-CONTAINER
 	if (archive == A_CSV && avoid) g.allowEmptyContainers = false;      // KF-CSV-EMPTY-TABLE
+	if (archive == A_JSON && avoid) g.simpleFloats = true;              // KF-JSON-DOUBLE-PRECISION
 
 	SerializationOptions o = GenLoadOptions(s, sim::L_CFG, archive);
 	OutCfg oc;
@@ -125,7 +126,7 @@ Outcome RunC01(RunCtx& ctx)
 
 	DynNode skel = Skeleton(doc);
 	LoadInfo info;
-	sim::steps_begin(20000ull * (bytes.size() + 4096));
+	sim::steps_begin(3000ull * (bytes.size() + 4096));
 	const CallResult r = LoadDynWith(ops, skel, bytes, o, ic, {}, false, &info);
 	sim::steps_end();
 	const std::string tags = baseTags + " in=" + (ic.stream ? (ic.seekable ? "stream:file" : "stream:pipe") : "mem") + " dir=load";
@@ -148,7 +149,7 @@ Outcome RunC01(RunCtx& ctx)
 	sim::steps_end();
 	if (!saved2.ok) return Violation("WRONG_EXCEPTION", baseTags + " dir=resave exc=" + saved2.cat, "saving the loaded value failed although saving the original succeeded: " + saved2.what);
 	DynNode skel2 = Skeleton(doc);
-	sim::steps_begin(20000ull * (bytes2.size() + 4096));
+	sim::steps_begin(3000ull * (bytes2.size() + 4096));
 	const CallResult r2 = LoadDynWith(ops, skel2, bytes2, o, ic);
 	sim::steps_end();
 	if (!r2.ok) return Violation("WRONG_EXCEPTION", tags + " what=fixedpoint exc=" + r2.cat, "load-save-load: second load failed: " + r2.what);
